@@ -17,6 +17,7 @@ import (
 	"time"
 
 	"github.com/anishathalye/porcupine"
+	"github.com/whatap/golib/util/queue"
 	"pgregory.net/rapid"
 	"verif/pbt"
 )
@@ -806,6 +807,116 @@ var specStress = pbt.Register(pbt.Spec[StressCase]{
 })
 
 func TestDrainStress(t *testing.T) { specStress.Check(t) }
+
+// ---- 3b'. blocking-get stress: several consumers parked in the blocking Get of a queue --------------------------------
+
+type BlockCase struct {
+	Type      string `json:"type"` // RequestQueue | RequestDoubleQueue
+	Producers int    `json:"producers"`
+	Consumers int    `json:"consumers"`
+	N         int    `json:"n"`     // elements per producer
+	Burst     int    `json:"burst"` // producers pause after every Burst puts so that the consumers run the queue empty again
+}
+
+func runBlock(c BlockCase) *pbt.Result {
+	total := c.Producers * c.N
+	var put func(p, i int) bool
+	var get func() interface{}
+	var size func() int
+	switch c.Type {
+	case "RequestQueue":
+		q := queue.NewRequestQueue(0)
+		put = func(p, i int) bool { return q.Put(1 + p*c.N + i) }
+		get, size = q.Get, q.Size
+	case "RequestDoubleQueue":
+		q := queue.NewRequestDoubleQueue(0, 0)
+		put = func(p, i int) bool {
+			if (p+i)%2 == 0 {
+				return q.Put1(1 + p*c.N + i)
+			}
+			return q.Put2(1 + p*c.N + i)
+		}
+		get, size = q.Get, q.Size
+	default:
+		return pbt.Fail("unknown queue type %q", c.Type)
+	}
+	var claimed, returned, accepted atomic.Int64
+	got := make([][]interface{}, c.Consumers)
+	var wg, pwg sync.WaitGroup
+	for ci := 0; ci < c.Consumers; ci++ {
+		wg.Add(1)
+		go func(ci int) {
+			defer wg.Done()
+			for claimed.Add(1) <= int64(total) { // exactly as many blocking gets as there will be elements
+				got[ci] = append(got[ci], get())
+				returned.Add(1)
+			}
+		}(ci)
+	}
+	time.Sleep(200 * time.Microsecond) // let the consumers park (not required for soundness)
+	for p := 0; p < c.Producers; p++ {
+		pwg.Add(1)
+		go func(p int) {
+			defer pwg.Done()
+			for i := 0; i < c.N; i++ {
+				if put(p, i) {
+					accepted.Add(1)
+				}
+				if c.Burst > 0 && i%c.Burst == c.Burst-1 {
+					for k := 0; k < 200 && size() > 0; k++ {
+						runtime.Gosched()
+					}
+				}
+			}
+		}(p)
+	}
+	pwg.Wait()
+	if accepted.Load() != int64(total) {
+		return pbt.Fail("%s: %d of %d puts on an unbounded queue were refused", c.Type, int64(total)-accepted.Load(), total)
+	}
+	done := make(chan struct{})
+	go func() { wg.Wait(); close(done) }()
+	select {
+	case <-done:
+	case <-time.After(90 * time.Second):
+		// all producers are finished: nothing but the consumers can change the queue any more
+		return pbt.Fail("%s: %d elements were put, %d blocking gets have returned, Size()=%d, and the remaining consumers have been waiting for 90 s after the last put (an element or a wake-up was lost)", c.Type, total, returned.Load(), size())
+	}
+	seen := map[int]int{}
+	for ci, l := range got {
+		for _, v := range l {
+			id, ok := v.(int)
+			if !ok {
+				return pbt.Fail("%s: a blocking Get returned %v although %d elements were put and %d gets issued (no sequential order lets a blocking get come back empty-handed)", c.Type, v, total, total)
+			}
+			if prev, dup := seen[id]; dup {
+				return pbt.Fail("%s: element %d was handed out twice (consumers %d and %d)", c.Type, id, prev, ci)
+			}
+			seen[id] = ci
+		}
+	}
+	if len(seen) != total {
+		return pbt.Fail("%s: %d distinct elements delivered, %d put", c.Type, len(seen), total)
+	}
+	if size() != 0 {
+		return pbt.Fail("%s: Size()=%d after every element was taken", c.Type, size())
+	}
+	return &pbt.Result{NT: c.Consumers >= 2, Classes: []string{"type=" + c.Type, fmt.Sprintf("consumers=%d", c.Consumers)}}
+}
+
+var specBlock = pbt.Register(pbt.Spec[BlockCase]{
+	Prop: "C10", Name: "blocking-get-stress",
+	Rule:  "2-6 consumer goroutines issue, between them, exactly as many blocking Get calls on an unbounded RequestQueue / RequestDoubleQueue as 1-3 producers put elements (bursts of 1-8 puts, then the producers let the queue run empty, so that several consumers are woken for fewer elements over and over); invariants sound for any schedule: every put is accepted, every blocking get returns an element (never empty-handed), every element is delivered exactly once, the queue ends empty, and all gets return once the last put is done; non-trivial = at least 2 consumers; distinct by case",
+	Quick: 60, Thorough: 3000,
+	Draw: func(t *rapid.T) BlockCase {
+		return BlockCase{Type: rapid.SampledFrom([]string{"RequestQueue", "RequestDoubleQueue", "RequestDoubleQueue"}).Draw(t, "type"),
+			Producers: rapid.IntRange(1, 3).Draw(t, "producers"), Consumers: rapid.IntRange(2, 6).Draw(t, "consumers"),
+			N: rapid.IntRange(100, pbt.Pick(1500, 6000)).Draw(t, "n"), Burst: rapid.IntRange(1, 8).Draw(t, "burst")}
+	},
+	Run: runBlock,
+})
+
+func TestBlockingGetStress(t *testing.T) { specBlock.Check(t) }
 
 // ---- 3c. growth stress: concurrent insertions of distinct keys across several table growths -----------------------
 
